@@ -1932,6 +1932,9 @@ func c02String(c *Ctx) {
 		if good {
 			nm, args, ok := v.selfCall(paths[0].Vals[0])
 			good = ok && nm == "serialize" && len(args) == 0
+			if call, isCall := paths[0].Vals[0].(TCall); isCall && !good {
+				debugf("c02String %s: fun=%v recv=%s self=%v ct=%v\n", name, call.Fun, key(call.Recv), call.Recv != nil && v.isSelf(call.Recv), v.ct != nil)
+			}
 		}
 		c.Ob(serRule("C02.R4"), name, fd.Pos()).Check(good, "String() returns self.serialize() unmodified", "String() is not `return self.serialize()`")
 	}
